@@ -21,11 +21,12 @@ CLAIMED = {
 }
 
 FSM_TEXT = "TLC explores spec/PeerSwap.tla (node + environment; state tables extracted from the code under test; every Action as a sequence of failable/crashable service calls) over role x chain x fault x crash x adversary configurations and exports the shortest schedule per coverage key, including every distinct set of violations the model predicts. Each schedule is executed on the REAL swap.SwapService (real FSM, actions, bbolt store, policy file, premium store, retransmitter, Bitcoin validator) inside a simulated chain/Lightning/wallet/peer; TLC replays the recorded events through the observer spec/PeerSwapObs.tla and evaluates the property checks at every event. The model's predicted final states and violations are compared with the real run (drift is reported, never a violation)."
+DUO_TEXT = ' Two-node part (engine duo): TLC explores Duo.tla, the two-party protocol as a composition (two nodes over the state tables extracted from the code, FIFO network with loss / delay and duplication of the one message peerswap retransmits, chain, Lightning channel with held HTLCs, scheduler with one failing call / one crash) for both swap types x both chains x who initiates, checks P_D1 atomicity, P_D2 termination after the fair closure, P_D3 agreement of the two records, P_D4 no secret before its time, P_D5 message conformance on every reachable state; the shortest schedule per coverage key, its heal / dead closures and VERIF_SEED random walks run on TWO REAL swap.SwapService instances wired together; TLC re-executes every recorded step on the model (joint snapshot must agree) and folds the real events through the same definitions (violations mapped to Cxx|duo|...).'
 FSM_NOTE = 'Bounded: 1-2 swaps, <= 4-6 environment steps, <= 1 service failure or crash per behaviour in the quick tier; Lightning node, chain, wallets and the peer are simulated (harness/l1); Liquid transactions are abstract records at this level (the real Liquid validator/builders are checked by engine tx).'
 CLAIMED.update({
-    "C06": ("swapfsm", "model_checking", FSM_TEXT + " For this property: coop_close is judged at every send against the ground-truth status of the swap's claim payment (HTLC created / pending / settled / failed as decided by the schedule).", FSM_NOTE,
+    "C06": ("combo(swapfsm+duo)", "model_checking", FSM_TEXT + " For this property: coop_close is judged at every send against the ground-truth status of the swap's claim payment (HTLC created / pending / settled / failed as decided by the schedule)." + DUO_TEXT, FSM_NOTE,
             "TLA+ design model + TLC schedule export + real-code execution + TLC trace validation (observer)", "7/C06"),
-    "C07": ("swapfsm", "model_checking", FSM_TEXT + " For this property: after every successful wallet broadcast the persisted record must name the opening tx at every quiescent point, and a maker swap may only be terminal when paid or spent back.", FSM_NOTE,
+    "C07": ("combo(swapfsm+duo)", "model_checking", FSM_TEXT + " For this property: after every successful wallet broadcast the persisted record must name the opening tx at every quiescent point, and a maker swap may only be terminal when paid or spent back." + DUO_TEXT, FSM_NOTE,
             "TLA+ design model + TLC schedule export + real-code execution + TLC trace validation (observer)", "7/C07"),
     "C09": ("swapfsm", "model_checking", FSM_TEXT + " For this property: registry and store snapshots before/after every delivery; messages from third parties, requests reusing ids, and messages unacceptable in the current state must change nothing.", FSM_NOTE,
             "TLA+ design model + TLC schedule export + real-code execution + TLC trace validation (observer)", "7/C09"),
@@ -136,10 +137,10 @@ CLAIMED.update({
 })
 
 CLAIMED.update({
-    "C16": ("swapfsm", "model_checking",
+    "C16": ("combo(swapfsm+duo)", "model_checking",
             FSM_TEXT + " For this property (bounded liveness on the code): every maximal exported schedule - i.e. every reachable (role, state, sub-step, crash point) class - is also run with the FAIR "
             "CLOSURE appended (peer silent, ten minutes pass, pending HTLCs resolve, the chain advances past confirmation depth, payment window and CSV, services succeed, two restarts); at the end every "
-            "swap must be terminal and its channel released; a taker whose payment succeeded must have claimed with the preimage; a maker must have been paid or spent back.",
+            "swap must be terminal and its channel released; a taker whose payment succeeded must have claimed with the preimage; a maker must have been paid or spent back." + DUO_TEXT,
             FSM_NOTE + " Liveness is bounded (one fixed closure of 15 steps), not a temporal proof; known findings: the two broadcast-then-persist crash windows and the record-without-state zombie.",
             "TLA+ design model + TLC schedule export + fair-closure runs on the real code + TLC trace validation", "7/C16"),
     "C22": ("swapfsm", "model_checking",
@@ -216,11 +217,12 @@ def main():
             dict(name="route", path="engines/route.py", serves_properties=["C24", "C04", "C05"], kind_free_text="Timelock.tla; real route builders, clients and checks"),
             dict(name="tx", path="engines/tx.py", serves_properties=["C01", "C03", "C08"], kind_free_text="TxShape.tla / SpendTx.tla; real validators and transaction builders"),
             dict(name="script", path="engines/script.py", serves_properties=["C02"], kind_free_text="Script.tla interpreter; btcd engine on the real script"),
-            dict(name="combo", path="engines/combo.py", serves_properties=["C01", "C04", "C05", "C08", "C14", "C26"], kind_free_text="joins the FSM-level part with the arithmetic / transaction part"),
+            dict(name="combo", path="engines/combo.py", serves_properties=["C01", "C04", "C05", "C06", "C07", "C08", "C14", "C16", "C26"], kind_free_text="joins the FSM-level part with the arithmetic / transaction part"),
             dict(name="watcher", path="engines/watcher.py", serves_properties=["C20"], kind_free_text="Watcher.tla; real RPC and Electrum watchers on a simulated chain"),
             dict(name="policy", path="engines/policy.py", serves_properties=["C25"], kind_free_text="Policy.tla; real policy.Policy on files"),
             dict(name="premium", path="engines/premium.py", serves_properties=["C27"], kind_free_text="Premium.tla; real premium.Setting on bbolt"),
             dict(name="peersync", path="engines/peersync.py", serves_properties=["C28", "C26"], kind_free_text="PeerSync.tla; real PeerSync/Store/poller"),
+            dict(name="duo", path="engines/duo.py", serves_properties=["C06", "C07", "C16"], kind_free_text="Duo.tla (two-party composition); two real swap services wired together; step-wise conformance + D1-D5"),
             dict(name="record", path="engines/record.py", serves_properties=["C14"], kind_free_text="Record.tla (record codec + store state machine); real bbolt store round trips"),
             dict(name="locks", path="engines/locks.py", serves_properties=["C18", "C19"], kind_free_text="Locks.tla lock/program interpreter; real SwapService + real watchers under gate control; race detector"),
             dict(name="swapfsm", path="engines/swapfsm.py", serves_properties=sorted(k for k, v in CLAIMED.items() if v[0] == "swapfsm"),
